@@ -55,6 +55,7 @@ type ChainReq struct {
 	V6    bool   `json:"v6,omitempty"`
 	Hex   string `json:"hex"`
 	RxIf  int    `json:"rxif"`           // receive ifindex (-1: no control message)
+	RxIfName string `json:"rxif_name,omitempty"` // resolved in the child's namespace, overrides RxIf
 	Peer  string `json:"peer,omitempty"` // source ip (port implied: relay 67 / client 68 / 546 / 547)
 	Port  int    `json:"port,omitempty"`
 	Async bool   `json:"async,omitempty"` // run concurrently with the following async requests
@@ -92,6 +93,7 @@ type ChainJob struct {
 	Pre     bool              `json:"pre,omitempty"` // record the in-memory response before it is serialised
 	Synth   []SynthPlugin     `json:"synth,omitempty"`
 	Via     string            `json:"via,omitempty"` // "" = plugins.LoadPlugins on a config value
+	Sniff   []string          `json:"sniff,omitempty"` // interfaces to sniff for link-level replies
 	LogHook bool              `json:"-"`
 }
 
@@ -105,6 +107,7 @@ type CapRes struct {
 type ReqRes struct {
 	I    int               `json:"i"`
 	Caps []CapRes          `json:"caps"`
+	Frames []FrameRes      `json:"frames,omitempty"`
 	Pre4 map[string]string `json:"pre4,omitempty"` // option code -> hex value, of the response the last handler returned
 	Pre6 string            `json:"pre6,omitempty"` // hex of the in-memory response's ToBytes
 	PreNil bool            `json:"pre_nil,omitempty"`
@@ -239,6 +242,15 @@ func chainChild() {
 	}
 	s4 := newSrv4(h4, ifi)
 	s6 := newSrv6(h6, ifi)
+	var sniff sniffSet
+	if len(job.Sniff) > 0 {
+		sniff, err = openSniffers(job.Sniff)
+		if err != nil {
+			emit(map[string]any{"setup_err": "harness: cannot sniff: " + err.Error()})
+			return
+		}
+	}
+	ifIndex := map[string]int{}
 	emit(map[string]any{"setup_ok": true, "n4": len(h4), "n6": len(h6)})
 	toCaps := func(cs []server.VerifCapture) []CapRes {
 		var r []CapRes
@@ -251,6 +263,19 @@ func chainChild() {
 		rq := job.Reqs[i]
 		data, _ := hex.DecodeString(rq.Hex)
 		peer := &net.UDPAddr{IP: net.ParseIP(rq.Peer), Port: rq.Port}
+		if rq.RxIfName != "" {
+			idx, ok := ifIndex[rq.RxIfName]
+			if !ok {
+				if x, err := net.InterfaceByName(rq.RxIfName); err == nil {
+					idx = x.Index
+				}
+				ifIndex[rq.RxIfName] = idx
+			}
+			rq.RxIf = idx
+		}
+		if sniff != nil {
+			sniff.collect(0) // discard anything stale
+		}
 		emit(map[string]any{"begin": i})
 		rec.reset()
 		pre4, pre6, preSet = nil, nil, false
@@ -307,6 +332,13 @@ func chainChild() {
 			caps = do()
 		}
 		rr.Caps, rr.Ns, rr.Trace = toCaps(caps), int64(time.Since(t0)), rec.take()
+		if sniff != nil {
+			wait := time.Duration(0)
+			if len(caps) == 0 {
+				wait = 30 * time.Millisecond
+			}
+			rr.Frames = sniff.collect(wait)
+		}
 		if job.Pre && preSet {
 			if rq.V6 {
 				if pre6 == nil {
